@@ -236,7 +236,7 @@ class _Sim:
             cls = classify(real, sim.layout)
             writing = any(c in mode for c in "wax+")
             m = "w" if writing else "r"
-            f = sim.match_fault("vanish", cls, m)
+            f = sim.match_fault("vanish", cls, m) if cls in ("config", "input", "output", "output_tmp", "log") else None
             if f is not None:
                 sim.fault_log.append({"fault": "vanish", "cls": cls, "path": ab})
                 try:
